@@ -1,5 +1,6 @@
 """C18 — attribute statement proofs and presentations: structural necessary conditions."""
 from .common import *
+from vlib.mir import block_places
 from vlib import transcript
 from vlib.mir import path_conditions
 
@@ -185,3 +186,38 @@ def run(ck):
     narrowing_len_sweep(ck, crate("rs", "concordium_base"), re.compile(r"concordium_base::(id::id_verifier|web3id)"), re.compile(r"(verify|verifier|validate|check)[a-z_0-9]*(::\{closure#\d+\})*$"))
     eq_polarity_sweep(ck, crate("rs", "concordium_base"), re.compile(r"concordium_base::(id::id_verifier|id::identity_attributes_credentials|web3id)"), re.compile(r"(verify|verifier|validate|check)[a-z_0-9]*(::\{closure#\d+\})*$"))
     rejecting_checks_floor(ck, crate("rs", "concordium_base"), re.compile(r"concordium_base::(id::id_verifier|id::identity_attributes_credentials|web3id)"), re.compile(r"(verify|verifier|validate|check|extract_commit_message)[a-z_0-9]*(::\{closure#\d+\})*$"), "C18")
+    material_rules(ck, crate("rs", "concordium_base"))
+
+
+def material_rules(ck, c):
+    """everything the verifier supplies about a credential (issuer, commitments, identity provider and revoker keys) takes
+    part in the verification of that credential"""
+    W3 = "concordium_base::web3id::v1::"
+    for fname, adt_name in (("AccountBasedCredentialV1", "AccountCredentialVerificationMaterial"), ("IdentityBasedCredentialV1", "IdentityCredentialVerificationMaterial")):
+        adt = c.adts.get(W3 + adt_name)
+        fs = [p for p in c.paths() if re.search(r"web3id::v1::proofs::<impl concordium_base::web3id::v1::%s<.*>>::verify$" % fname, p)]
+        if not ck.anchor(adt is not None and len(fs) == 1, "COV", fname + "::verify", "function and verification material type exist"):
+            continue
+        f = Fn(c.get(fs[0]))
+        fields = [x["name"] for x in adt["variants"][0]["fields"]]
+        used = set()
+        for bi in f.reachable():
+            for st in f.stmts(bi):
+                rv = st.get("rv", {})
+                pl = rv.get("p") if rv.get("k") in ("ref", "rawptr") else (op_place(rv.get("a")) if rv.get("k") in ("use", "cast") else None)
+                if not pl:
+                    continue
+                names = [re.match(r"^f\d+:(\w+)$", str(pr)).group(1) for pr in pl[1] if re.match(r"^f\d+:(\w+)$", str(pr))]
+                hit = [n2 for n2 in names if n2 in fields]
+                mat = [k + 1 for k, ty in enumerate(f.b["inputs"]) if "VerificationMaterial" in ty]
+                if not hit or "lhs" not in st or pl[0] not in mat:
+                    continue
+                # the value read from the field must go somewhere: an argument of a call or an operand of a comparison
+                fw = f.forward({st["lhs"][0]})
+                consumed = any(any((op_place(a) or [None])[0] in fw for a in t["args"]) for (b2, t) in f.calls())
+                if consumed:
+                    used |= set(hit)
+        # reads through a binding of the destructured reference: a field projection on any local whose type names the ADT
+        for fl in fields:
+            ck.ob("COV", f.path, "material-field-used:" + fl, fl in used, "the verifier-supplied `%s` is read by the credential's verification" % fl if fl in used else
+                  "the verifier-supplied `%s` is never read: the presentation is not checked against it" % fl, f.loc())
